@@ -180,3 +180,31 @@ def check_graph(expr, graph=None):
         problems.append(("graph-not-serialisable", f"{type(e).__name__}: {str(e)[:300]}"))
     info = {"nkeys": len(g), "nexprs": len(exprs), "multi_layers": nlayers, "fused_tasks": nfused[0]}
     return problems, info
+
+
+def cross_collisions(exprs_by_value):
+    """Key collisions across several lowered plans that may be computed in one
+    graph (dask.compute(a, b) merges their graphs).  exprs_by_value: {id: lowered expr}"""
+    owner = {}
+    problems = []
+    seen = set()
+    for vid, expr in exprs_by_value.items():
+        stack = [expr]
+        while stack:
+            e = stack.pop()
+            if e._name in seen:
+                continue
+            seen.add(e._name)
+            try:
+                layer = e._layer()
+            except Exception:
+                layer = {}
+            imported = type(e).__name__ in ("FromGraph",)
+            for k, t in layer.items():
+                if k in owner and owner[k][0] != e._name and not (imported or owner[k][3]) and not _same_task(owner[k][1], t):
+                    problems.append(("key-collision", f"key {k!r} defined with different tasks by {owner[k][0]} and {e._name} (values {owner[k][2]} and {vid} of one program)"))
+                # a persisted / imported graph keeps the key names of the computation it holds the
+                # *results* of: same key, same value, by design (dask's persist contract)
+                owner[k] = (e._name, t, vid, imported)
+            stack.extend(e.dependencies())
+    return problems
